@@ -42,6 +42,9 @@ def run(ck, fb):
     r18f(ck, fb)
     r18g(ck, fb)
     r18d(ck, fb)
+    r18h(ck, fb)
+    r18i(ck, fb)
+    r18j(ck, fb)
 
 
 def find_generic(fb, suffix):
@@ -107,13 +110,39 @@ def r18a(ck, fb):
         ck.body(PV + 'NamespacePrivilegeGroup::check_permission', 'R18a')
     else:
         ck.analysed(n)
-        calls = n.calls(r'PrivilegeGroup::<T>::check_permission$')
-        idn = n.calls(r'namespace::is_default_namespace$')
-        ck.require(len(calls) == 2 and len(idn) == 1, 'R18a', 'NamespacePrivilegeGroup::check_permission:shape', n.where(),
-                   'the namespace privilege check does not (map the default namespace, then) call PrivilegeGroup::check_permission on both paths')
-        for s in calls:
-            ck.require(s.dst == 0 or Taint(n, local_src=[s.dst] if isinstance(s.dst, int) else []).local_tainted(0), 'R18a',
-                       'NamespacePrivilegeGroup::check_permission:returns-check', s.where(), 'the result of the inner check is not what is returned')
+        # decided by interpretation, not by shape: is_default_namespace(key) = DEF, the inner generic check = CP, a helper that looks for the
+        # default namespace among the entries of a list = HAS_<list>. Accepted: CP on the non-default path, and on the default path either the
+        # inner check (then R18h judges how the lists are matched) or (whitelist_is_all || HAS_whitelist) && !(blacklist_is_all || HAS_blacklist)
+        def m_def(i, fr, t, args):
+            return BV.const(1, int(i.env.atom('DEF', 'bool')))
+
+        def m_cp(i, fr, t, args):
+            return BV.const(1, int(i.env.atom('CP', 'bool')))
+
+        def m_has(i, fr, t, args):
+            fs = cfg.origin_fields(fr.body, t['args'][-1]) if t.get('args') else []
+            return BV.const(1, int(i.env.atom('HAS_' + (fs[-1] if fs else '?'), 'bool')))
+        nmodels = {'rnacos::namespace::is_default_namespace': m_def, cp[0].name: m_cp}
+        for nm0 in cfg.PASS_THROUGH + ('<std::sync::Arc<std::string::String> as std::ops::Deref>::deref', '<std::string::String as std::ops::Deref>::deref', '<rnacos::common::constant::DEFAULT_NAMESPACE_ARC_STRING as std::ops::Deref>::deref'):
+            nmodels[nm0] = _m_ident
+        nmodels['<rnacos::common::constant::DEFAULT_NAMESPACE_ARC_STRING as std::ops::Deref>::deref'] = lambda i, fr, t, args: Ref(obj=SymObj('default_ns'))
+        for x in util.region(fb, n, 1):
+            if x is not n and not x.parent and x.local_ty(0) == 'bool' and x.name not in nmodels:
+                nmodels[x.name] = m_has
+        WLA, BLA = 'self.0.whitelist_is_all', 'self.0.blacklist_is_all'
+        alla = {'DEF': [False, True], 'CP': [False, True], 'HAS_whitelist': [False, True], 'HAS_blacklist': [False, True], WLA: [False, True], BLA: [False, True]}
+        from rn.report import Checker
+        verdicts = []
+        for nm, orc in (('delegates', lambda a: a['CP']),
+                        ('either-name', lambda a: a['CP'] if not a['DEF'] else ((a[WLA] or a['HAS_whitelist']) and not (a[BLA] or a['HAS_blacklist'])))):
+            sh = Checker('C18', fb, write=False)
+            sh.shadow = True
+            sh.rule('R18a', '')
+            check_table(sh, fb, 'R18a', 'x', n, lambda: [Ref(obj=SymObj('self')), Ref(obj=SymObj('key'))], orc, all_atoms=alla, call_models=nmodels)
+            verdicts.append((nm, not sh.violations))
+        ck.require(any(v for _, v in verdicts), 'R18a', 'NamespacePrivilegeGroup::check_permission:table', n.where(),
+                   'the namespace privilege check is neither the inner check on both paths nor (whitelist_is_all || default listed) && '
+                   '!(blacklist_is_all || default listed) on the default-namespace path: %s' % verdicts, 'form: %s' % [nm for nm, v in verdicts if v])
     no = fb.bodies.get(PV + 'NamespacePrivilegeGroup::check_option_value_permission')
     if no is not None:
         ck.analysed(no)
@@ -437,3 +466,83 @@ def r18g(ck, fb):
                    '%s is serialisable but its namespace_privilege field is not written (serde skip): forwarded to another node the query is evaluated '
                    'with the default privilege, which permits every namespace' % ty, 'field written')
     ck.floor('R18g', 'serialisable structs that carry namespace_privilege', n, 1)
+
+
+def r18h(ck, fb):
+    from rn.callgraph import CallGraph
+    ck.rule('R18h', 'the default namespace is one namespace with two names ("" and "public"): NamespacePrivilegeGroup::check_permission recognises '
+                    'both in the requested key; the entries of the stored white / black list must be matched the same way - a predicate over the list '
+                    'entries that applies is_default_namespace to them (or lists that are normalised where they are stored). With a plain '
+                    'contains("") a blacklist ["public"] sent through the user API blocks nothing and a whitelist ["public"] admits nothing')
+    NP = 'rnacos::common::model::privilege::NamespacePrivilegeGroup::'
+    b = ck.body(NP + 'check_permission', 'R18h')
+    if not b:
+        return
+    key_sites = b.calls(r'rnacos::namespace::is_default_namespace$')
+    if not ck.require(len(key_sites) >= 1, 'R18h', 'anchor:key-normalised', b.where(), 'check_permission no longer recognises the default namespace in the key'):
+        return
+    # entries: a closure (iter().any(..)) or helper below check_permission that calls is_default_namespace on list elements
+    entry = False
+    for x in util.region(fb, b, 2):
+        if x is b:
+            continue
+        if x.calls(r'rnacos::namespace::is_default_namespace$'):
+            entry = True
+    # or normalisation at the place where lists are stored
+    norm = False
+    for x in fb.bodies.values():
+        if '::tests' in x.name or x.name.startswith(NP):
+            continue
+        if any(f in ('whitelist', 'blacklist') and o.endswith('PrivilegeGroup') for (o, f, bb, st) in x.field_writes()):
+            if any(y.calls(r'is_default_namespace$|NamingUtils::default_namespace$') for y in util.region(fb, x, 1)):
+                norm = True
+    ck.require(entry or norm, 'R18h', 'default-namespace:list-entries-matched-by-either-name', key_sites[0].where(),
+               'the key "public" / "" is mapped to "" and looked up with contains(""): admin sets dev1\'s blacklist to ["public"] through v2/user/update, '
+               'dev1 still reads config/info of the default namespace (tenant=public and tenant omitted), config/list and service/list',
+               'entries matched through is_default_namespace' if entry else 'lists normalised where stored')
+
+
+def r18i(ck, fb):
+    ck.rule('R18i', 'an object found through a global key is changed only inside the namespace that was checked: the MCP server import checks the '
+                    'caller\'s privilege for the TARGET namespace and then looks each entry up by its unique_key, which is global. On the branch where a '
+                    'server with that key exists, the update request is reached only after a comparison of the existing server\'s namespace - '
+                    'otherwise a user whitelisted for ns1 rewrites, and moves, a server of ns2')
+    hs = [b for b in fb.bodies.values() if re.search(r'mcp_server_api::update_mcp_server_for_import::\{closure#0\}$', b.name)]
+    if not ck.require(len(hs) == 1, 'R18i', 'anchor:update_mcp_server_for_import', '-', 'update_mcp_server_for_import not found'):
+        return
+    b = hs[0]
+    ck.analysed(b)
+    lookups = [i for (i, j, st) in b.aggregates(r'McpManagerReq$', 'GetServerByKey')]
+    updates = [i for (i, j, st) in b.aggregates(r'McpManagerRaftReq$', 'UpdateServer')]
+    if not ck.require(bool(lookups) and bool(updates), 'R18i', 'anchor:lookup-then-update', b.where(), 'the import no longer looks a server up by key and updates it'):
+        return
+    from rn.facts import pl_fields
+    ns = Taint(b, place_src=lambda p: 'namespace' in pl_fields(p) and any(isinstance(e, dict) and e.get('o', '').endswith('McpServer') for e in (p.get('p', []) if isinstance(p, dict) else [])))
+    gates = set(i for i, blk in enumerate(b.blocks) if blk['t']['k'] == 'switch' and ns.op_tainted(blk['t']['discr']))
+    for u in updates:
+        ok = bool(gates) and all(u not in cfg.reach_from(b, [l], blocked_blocks=list(gates)) for l in lookups)
+        ck.require(ok, 'R18i', 'import:update-by-key-stays-in-namespace', b.where(u),
+                   'the server found by unique_key is updated whatever namespace it is in: dev1 (whitelist ns1) imports into ns1 a zip naming the key of an '
+                   'ns2 server - "1 servers updated", the ns2 server is now namespace=ns1 name=taken-over auth_keys=[dev1-key]',
+                   'existing.namespace compared before the update')
+
+
+def r18j(ck, fb):
+    ck.rule('R18j', 'the namespace privilege a request is judged by is the one stored for the user now: the console session is created at login and '
+                    'lives for a day; get_user_session (login middleware) must take namespace_privilege from the user manager on every request '
+                    '(a UserManagerReq::Query whose answer reaches the session it returns), or user changes must invalidate sessions. Otherwise a '
+                    'user the administrator restricts to ns1 keeps reading and writing ns2 with the token he holds (see also R17f for the roles)')
+    gs = [b for b in fb.bodies.values() if re.search(r'console::middle::login_middle::get_user_session::\{closure#0\}$', b.name)]
+    if not ck.require(len(gs) == 1, 'R18j', 'anchor:get_user_session', '-', 'login_middle::get_user_session not found'):
+        return
+    b = gs[0]
+    ck.analysed(b)
+    ok = False
+    for x in util.region(fb, b, 2):
+        q = x.aggregates(r'rnacos::user::UserManagerReq$', 'Query')
+        w = [1 for (o, f, bb, st) in x.field_writes() if f == 'namespace_privilege' and o.endswith('UserSession')]
+        if q and w:
+            ok = True
+    ck.require(ok, 'R18j', 'session:namespace-privilege-from-user-record', b.where(),
+               'the session is returned as it was stored at login: dev1 logs in, the admin restricts him to ns1 (the user record refuses ns2), the old '
+               'token still reads password=ns2-secret from v2/config/info?tenant=ns2', 'refreshed from the user record')
